@@ -12,6 +12,7 @@ from hypothesis import strategies as st
 
 from vlib.api import Part, ok, bad
 from simnet import scen
+from simnet.net import addr_key as simnet_addr_key
 
 ID = 'C04'
 LEVEL = 'exploration'
@@ -37,7 +38,7 @@ def prepare():
 def case_strategy(draw, tier):
     release = draw(st.integers(0, 5)) == 0
     return _cap({
-        'pos': draw(st.sampled_from(['sole', 'sole', 'several', 'relay'])),
+        'pos': draw(st.sampled_from(['sole', 'sole', 'several', 'relay', 'balanced'])),     # balanced: a load-balancing publisher, the stalling consumer shares its output with a '?' listener
         'k': draw(st.one_of(st.integers(1, 20), st.integers(1, 20), st.integers(20, 150))),
         'stall_ms': draw(st.integers(6000, 9000)) if release else draw(st.integers(500, 4800)),
         'n': 400,
@@ -84,6 +85,13 @@ def build_nodes(case, stall_ms):
         nodes.append({'id': 'R', 'sources': ['S'], 'beh': {'kind': 'xf', 'work': case['relay_work']}, 'required': ['C'] if case['required'] else None, 'start': st_[1]})
         stalled['sources'] = ['R']
         edges = [('S', 'R'), ('R', 'C')]
+    elif case['pos'] == 'balanced':
+        nodes[0].update({'nout': 2, 'obal': True, 'required': ['C', 'D'] if case['required'] else None})
+        stalled['sources'] = [{'from': 'S', 'k': 0}]
+        nodes.append({'id': 'D', 'sources': [{'from': 'S', 'k': 1}], 'nout': 0, 'beh': {'kind': 'sink', 'work': case['other_work']}, 'start': st_[3]})
+        # a watcher on the stalling consumer's output; it joins after the synchronized consumers are known to the publisher
+        nodes.append({'id': 'E', 'sources': [{'from': 'S', 'k': 0, 'suffix': '?'}], 'nout': 0, 'beh': {'kind': 'sink', 'work': [0]}, 'start': max(st_) + 500})
+        edges = [('S', 'C')]
     else:
         stalled['sources'] = ['S']
         edges = [('S', 'C')]
@@ -135,7 +143,8 @@ def run_once(case, stall_ms):
             else:   # the relay stops taking frames at its last process() call inside the window
                 rc = [r['t'] for r in p.process_calls(cons) if t0c <= r['t'] < t_end]
                 t0 = max(rc) if rc else t0c
-            res['overrun'][f'{pub}->{cons}'] = sum(1 for r in pubs if r['node'] == pub and t0 < r['t'] <= t_end)
+            addr0 = simnet_addr_key(p.out_addrs(pub)[0]) if case['pos'] == 'balanced' else None     # a balancing publisher: only what goes out on the stalled consumer's output counts
+            res['overrun'][f'{pub}->{cons}'] = sum(1 for r in pubs if r['node'] == pub and t0 < r['t'] <= t_end and (addr0 is None or r['addr'] == addr0))
         res['pending_requests'] = sum(1 for r in p.pushes() if r['node'] == 'C' and t0c - 150_000_000 <= r['t'] <= t0c)
         res['src_had_frames'] = len([r for r in p.calls.get(('S', 0), []) if 'seq' in r]) < case['n']
         if case['pos'] == 'several' and stall_ms > CONN_TIMEOUT_MS:
